@@ -409,7 +409,7 @@ impl<'a, F: IVP> SolOut for DefaultSolOut<'a, F> {
             if let Some(h0) = self.first_step {
                 // First-step enforcement: skip intermediate outputs until we reach/pass
                 // the target, then interpolate to the exact point.
-                if !self.first_output_done && (xold - *x).abs() > self.tol {
+                if !self.first_output_done && xold != *x {
                     let direction = (*x - xold).signum();
                     // For backward integration (direction < 0), target is x0 - h0
                     let target = self.x0 + direction * h0;
